@@ -43,4 +43,51 @@ def contentE : Entry β → List β
 
 def keyE (e : Entry β) : String := keyOf (fpOf e)
 
+/-! ### Reading a stored group back into its logical description (used by the correspondence run to evaluate the
+hypotheses of `restore_exact` on real storages) -/
+
+/-- `contentOf hash size`: the content with that hash and length, when known. -/
+def logicalOf (contentOf : H → Nat → Option (List β)) (b : Backup H β) : Option (LBackup β) :=
+  match b.manifest with
+  | none => none
+  | some recs =>
+    let keyOfTar : String → String := fun p => keyOf ((tarPathToFile p).getD [])
+    let stored : String → Bool := fun p => recs.any (fun (r : MRec H) => r.unique && r.path == keyOfTar p)
+    let es := b.archive.mapM (fun e => match e with
+      | .file p m d =>
+        if stored p then some (Entry.file p m d)
+        else match recs.find? (fun (r : MRec H) => r.path == keyOfTar p) with
+          | some r => if r.size = 0 then some (Entry.file p m []) else (contentOf r.hash r.size).map (fun c => Entry.file p m c)
+          | none => none
+      | e => some e)
+    es.map (fun es => ⟨b.name, es, stored⟩)
+
+def backupEq [DecidableEq β] (a b : Backup H β) : Bool :=
+  a.name == b.name && decide (a.manifest = b.manifest) && decide (a.archive = b.archive) && a.archiveComplete == b.archiveComplete
+
+/-- Executable form of `ResolvableL` (sound: `resolvableCheck_sound`). -/
+def resolvableCheck [DecidableEq β] (lg : List (LBackup β)) (t : Nat) (lt : LBackup β) : Bool :=
+  lt.es.all (fun b => !isExtE lt.stored b ||
+    (lt.es.any (fun a => isOwnE lt.stored a && decide (contentE a = contentE b)) ||
+     (List.range t).any (fun j => match lg[j]? with
+       | some lb => lb.es.any (fun a => match a with
+         | .file p _ d => lb.stored p && decide (d = contentE b)
+         | _ => false)
+       | none => false)))
+
+/-- All hypotheses of `restore_exact` about a stored group, evaluated: every backup up to the target reads back
+into a logical description that renders to exactly what is stored and is well formed, and the target is resolvable. -/
+def generalCheck [DecidableEq β] (hashOf : List β → H) (contentOf : H → Nat → Option (List β)) (group : List (Backup H β)) (t : Nat) :
+    Option (List (LBackup β)) :=
+  match (group.take (t + 1)).mapM (logicalOf contentOf) with
+  | none => none
+  | some lg =>
+    if lg.length = t + 1 ∧ (List.range (t + 1)).all (fun j => match lg[j]?, group[j]? with
+        | some lb, some b => backupEq (render hashOf lb) b && wfCheck lb.es
+        | _, _ => false) then
+      match lg[t]? with
+      | some lt => if resolvableCheck lg t lt then some lg else none
+      | none => none
+    else none
+
 end Vsb.Restore
